@@ -270,7 +270,8 @@ class Gen:
             self.odd_rules = old
             return {'k': 'monitor', 'rules': rules, 'flags': 0 if rng.random() < 0.95 else 1}
         if k == 'big':
-            return {'k': 'big', 'n': self.cfg.get('maxMsgSize', 70000) + rng.choice([1, 64, 5000])}
+            # (-40 / -8: header and body are each within the limit, only their sum is over it)
+            return {'k': 'big', 'n': self.cfg.get('maxMsgSize', 70000) + rng.choice([1, 64, 5000, -40, -8])}
         sig, body = self.body()
         base = {'k': 'send', 'sig': sig, 'body': body, 'forge': self.forged()}
         if k == 'signal':
